@@ -1,7 +1,471 @@
-// Engine `db`; filled in by a later step.
-use super::Script;
+// Engine `db` (C03 event buffer, C13 counters / class bits, C11 static snapshot series).
+//
+// Drives the PRODUCTION outstation database (`outstation::database::Database`, whose `inner` is
+// `details::database::Database` = `StaticDatabase` + `EventBuffer`) without a session:
+//
+//   cfg   mb mdb mbos mc mfc ma maos mo   per-type event buffer sizes (default 0)
+//         c0=<8 x 0|1>                    class-zero configuration (bi dbi bos ctr fctr ai aos oct)
+//         maxsel=<n>                      max_read_selection (default: none)
+//
+//   add <type> <index> <class 0..3> <svar> <evar> <deadband>     -> add 0|1
+//   rm <type> <index>                                            -> rm 0|1
+//   upd <type> <index> <value> <flags> <time> <mode>             -> upd nopoint|noevent|created <id>|overflow <created> <discarded>
+//   updf <type> <index> <flags> <time> <mode>                    -> (same observations, prefix updf)
+//   get <type> <index>                                           -> get none | get <value> <flags> <time>
+//   sel <group> <var> all | c8 <n> | c16 <n> | r8 <a> <b> | r16 <a> <b>
+//                                                                -> sel <iin2> | sel unsupported | sel badreq
+//        one object header of a READ request: built as bytes, parsed by the crate's own parser,
+//        mapped by `ReadHeader::get` (database/read.rs) and passed to `select_by_header`
+//   selm <c1c2c3>                                                -> selm <count>    (select_event_classes, the unsolicited path)
+//   wr <budget>                                                  -> wr <hex> <has_events> <complete>   (write_response_headers)
+//   wre <budget>                                                 -> wre <hex> <count>                 (write_events_only)
+//   clr                                                          -> clr <ids|-> | <c1> <c2> <c3> | <8 type counts>
+//   rst                                                          -> rst
+//   iin                                                          -> iin <c1><c2><c3> <overflown>
+//
+//   type:  bi dbi bos ctr fctr ai aos oct
+//   value: bi/bos 0|1, dbi 0..3, ctr/fctr decimal u32, ai/aos 16 hex digits (f64 bit pattern), oct hex
+//   time:  n | s<ms> | u<ms>       mode: d|f|s (detect, force, suppress) followed by 1|0 (update_static)
+//   svar/evar: g<group>v<var>      deadband: decimal u32 (ctr, fctr), 16 hex digits (ai, aos), `-` otherwise
+
+use super::{hex, unhex, Script};
+use crate::app::measurement::*;
+use crate::app::parse::options::ParseOptions;
+use crate::app::parse::parser::HeaderCollection;
+use crate::app::{FunctionCode, MaybeAsync, Timestamp};
+use crate::master::EventClasses;
+use crate::outstation::database::read::ReadHeader;
+use crate::outstation::database::*;
+use crate::outstation::{BufferState, OutstationApplication};
+use scursor::WriteCursor;
+
+struct App {
+    cleared: Vec<u64>,
+}
+
+impl OutstationApplication for App {
+    fn event_cleared(&mut self, id: u64) {
+        self.cleared.push(id);
+    }
+    fn end_confirm(&mut self, _state: BufferState) -> MaybeAsync<()> {
+        MaybeAsync::ready(())
+    }
+}
+
+fn num(s: &str) -> u64 {
+    s.parse::<u64>().expect("bad number")
+}
+
+fn gv(s: &str) -> (u8, u8) {
+    let s = s.strip_prefix('g').expect("variation token");
+    let (g, v) = s.split_once('v').expect("variation token");
+    (g.parse().unwrap(), v.parse().unwrap())
+}
+
+fn class(s: &str) -> Option<EventClass> {
+    match s {
+        "0" => None,
+        "1" => Some(EventClass::Class1),
+        "2" => Some(EventClass::Class2),
+        "3" => Some(EventClass::Class3),
+        x => panic!("bad class {}", x),
+    }
+}
+
+fn time(s: &str) -> Option<Time> {
+    if s == "n" {
+        None
+    } else if let Some(x) = s.strip_prefix('s') {
+        Some(Time::Synchronized(Timestamp::new(num(x))))
+    } else if let Some(x) = s.strip_prefix('u') {
+        Some(Time::Unsynchronized(Timestamp::new(num(x))))
+    } else {
+        panic!("bad time {}", s)
+    }
+}
+
+fn time_text(t: Option<Time>) -> String {
+    match t {
+        None => "n".to_string(),
+        Some(Time::Synchronized(x)) => format!("s{}", x.raw_value()),
+        Some(Time::Unsynchronized(x)) => format!("u{}", x.raw_value()),
+    }
+}
+
+fn mode(s: &str) -> UpdateOptions {
+    let b = s.as_bytes();
+    let m = match b[0] {
+        b'd' => EventMode::Detect,
+        b'f' => EventMode::Force,
+        b's' => EventMode::Suppress,
+        _ => panic!("bad mode"),
+    };
+    UpdateOptions::new(b[1] == b'1', m)
+}
+
+fn f64_of(s: &str) -> f64 {
+    f64::from_bits(u64::from_str_radix(s, 16).expect("bad f64 bits"))
+}
+
+fn dbit(s: &str) -> DoubleBit {
+    match s {
+        "0" => DoubleBit::Intermediate,
+        "1" => DoubleBit::DeterminedOff,
+        "2" => DoubleBit::DeterminedOn,
+        "3" => DoubleBit::Indeterminate,
+        x => panic!("bad double bit {}", x),
+    }
+}
+
+fn s_bi(s: &str) -> StaticBinaryInputVariation {
+    match gv(s) {
+        (1, 1) => StaticBinaryInputVariation::Group1Var1,
+        (1, 2) => StaticBinaryInputVariation::Group1Var2,
+        _ => panic!("bad svar {}", s),
+    }
+}
+fn e_bi(s: &str) -> EventBinaryInputVariation {
+    match gv(s) {
+        (2, 1) => EventBinaryInputVariation::Group2Var1,
+        (2, 2) => EventBinaryInputVariation::Group2Var2,
+        (2, 3) => EventBinaryInputVariation::Group2Var3,
+        _ => panic!("bad evar {}", s),
+    }
+}
+fn s_dbi(s: &str) -> StaticDoubleBitBinaryInputVariation {
+    match gv(s) {
+        (3, 1) => StaticDoubleBitBinaryInputVariation::Group3Var1,
+        (3, 2) => StaticDoubleBitBinaryInputVariation::Group3Var2,
+        _ => panic!("bad svar {}", s),
+    }
+}
+fn e_dbi(s: &str) -> EventDoubleBitBinaryInputVariation {
+    match gv(s) {
+        (4, 1) => EventDoubleBitBinaryInputVariation::Group4Var1,
+        (4, 2) => EventDoubleBitBinaryInputVariation::Group4Var2,
+        (4, 3) => EventDoubleBitBinaryInputVariation::Group4Var3,
+        _ => panic!("bad evar {}", s),
+    }
+}
+fn s_bos(s: &str) -> StaticBinaryOutputStatusVariation {
+    match gv(s) {
+        (10, 1) => StaticBinaryOutputStatusVariation::Group10Var1,
+        (10, 2) => StaticBinaryOutputStatusVariation::Group10Var2,
+        _ => panic!("bad svar {}", s),
+    }
+}
+fn e_bos(s: &str) -> EventBinaryOutputStatusVariation {
+    match gv(s) {
+        (11, 1) => EventBinaryOutputStatusVariation::Group11Var1,
+        (11, 2) => EventBinaryOutputStatusVariation::Group11Var2,
+        _ => panic!("bad evar {}", s),
+    }
+}
+fn s_ctr(s: &str) -> StaticCounterVariation {
+    match gv(s) {
+        (20, 1) => StaticCounterVariation::Group20Var1,
+        (20, 2) => StaticCounterVariation::Group20Var2,
+        (20, 5) => StaticCounterVariation::Group20Var5,
+        (20, 6) => StaticCounterVariation::Group20Var6,
+        _ => panic!("bad svar {}", s),
+    }
+}
+fn e_ctr(s: &str) -> EventCounterVariation {
+    match gv(s) {
+        (22, 1) => EventCounterVariation::Group22Var1,
+        (22, 2) => EventCounterVariation::Group22Var2,
+        (22, 5) => EventCounterVariation::Group22Var5,
+        (22, 6) => EventCounterVariation::Group22Var6,
+        _ => panic!("bad evar {}", s),
+    }
+}
+fn s_fctr(s: &str) -> StaticFrozenCounterVariation {
+    match gv(s) {
+        (21, 1) => StaticFrozenCounterVariation::Group21Var1,
+        (21, 2) => StaticFrozenCounterVariation::Group21Var2,
+        (21, 5) => StaticFrozenCounterVariation::Group21Var5,
+        (21, 6) => StaticFrozenCounterVariation::Group21Var6,
+        (21, 9) => StaticFrozenCounterVariation::Group21Var9,
+        (21, 10) => StaticFrozenCounterVariation::Group21Var10,
+        _ => panic!("bad svar {}", s),
+    }
+}
+fn e_fctr(s: &str) -> EventFrozenCounterVariation {
+    match gv(s) {
+        (23, 1) => EventFrozenCounterVariation::Group23Var1,
+        (23, 2) => EventFrozenCounterVariation::Group23Var2,
+        (23, 5) => EventFrozenCounterVariation::Group23Var5,
+        (23, 6) => EventFrozenCounterVariation::Group23Var6,
+        _ => panic!("bad evar {}", s),
+    }
+}
+fn s_ai(s: &str) -> StaticAnalogInputVariation {
+    match gv(s) {
+        (30, 1) => StaticAnalogInputVariation::Group30Var1,
+        (30, 2) => StaticAnalogInputVariation::Group30Var2,
+        (30, 3) => StaticAnalogInputVariation::Group30Var3,
+        (30, 4) => StaticAnalogInputVariation::Group30Var4,
+        (30, 5) => StaticAnalogInputVariation::Group30Var5,
+        (30, 6) => StaticAnalogInputVariation::Group30Var6,
+        _ => panic!("bad svar {}", s),
+    }
+}
+fn e_ai(s: &str) -> EventAnalogInputVariation {
+    match gv(s) {
+        (32, 1) => EventAnalogInputVariation::Group32Var1,
+        (32, 2) => EventAnalogInputVariation::Group32Var2,
+        (32, 3) => EventAnalogInputVariation::Group32Var3,
+        (32, 4) => EventAnalogInputVariation::Group32Var4,
+        (32, 5) => EventAnalogInputVariation::Group32Var5,
+        (32, 6) => EventAnalogInputVariation::Group32Var6,
+        (32, 7) => EventAnalogInputVariation::Group32Var7,
+        (32, 8) => EventAnalogInputVariation::Group32Var8,
+        _ => panic!("bad evar {}", s),
+    }
+}
+fn s_aos(s: &str) -> StaticAnalogOutputStatusVariation {
+    match gv(s) {
+        (40, 1) => StaticAnalogOutputStatusVariation::Group40Var1,
+        (40, 2) => StaticAnalogOutputStatusVariation::Group40Var2,
+        (40, 3) => StaticAnalogOutputStatusVariation::Group40Var3,
+        (40, 4) => StaticAnalogOutputStatusVariation::Group40Var4,
+        _ => panic!("bad svar {}", s),
+    }
+}
+fn e_aos(s: &str) -> EventAnalogOutputStatusVariation {
+    match gv(s) {
+        (42, 1) => EventAnalogOutputStatusVariation::Group42Var1,
+        (42, 2) => EventAnalogOutputStatusVariation::Group42Var2,
+        (42, 3) => EventAnalogOutputStatusVariation::Group42Var3,
+        (42, 4) => EventAnalogOutputStatusVariation::Group42Var4,
+        (42, 5) => EventAnalogOutputStatusVariation::Group42Var5,
+        (42, 6) => EventAnalogOutputStatusVariation::Group42Var6,
+        (42, 7) => EventAnalogOutputStatusVariation::Group42Var7,
+        (42, 8) => EventAnalogOutputStatusVariation::Group42Var8,
+        _ => panic!("bad evar {}", s),
+    }
+}
+
+fn info_text(prefix: &str, info: UpdateInfo) -> String {
+    match info {
+        UpdateInfo::NoPoint => format!("{} nopoint", prefix),
+        UpdateInfo::NoEvent => format!("{} noevent", prefix),
+        UpdateInfo::Created(id) => format!("{} created {}", prefix, id),
+        UpdateInfo::Overflow { created, discarded } => {
+            format!("{} overflow {} {}", prefix, created, discarded)
+        }
+    }
+}
+
+fn b01(x: bool) -> u8 {
+    u8::from(x)
+}
+
+/// the object header of a READ request as the master would send it
+fn request_header(op: &[String]) -> Vec<u8> {
+    let mut out = vec![num(&op[1]) as u8, num(&op[2]) as u8];
+    match op[3].as_str() {
+        "all" => out.push(0x06),
+        "c8" => {
+            out.push(0x07);
+            out.push(num(&op[4]) as u8);
+        }
+        "c16" => {
+            out.push(0x08);
+            out.extend_from_slice(&(num(&op[4]) as u16).to_le_bytes());
+        }
+        "r8" => {
+            out.push(0x00);
+            out.push(num(&op[4]) as u8);
+            out.push(num(&op[5]) as u8);
+        }
+        "r16" => {
+            out.push(0x01);
+            out.extend_from_slice(&(num(&op[4]) as u16).to_le_bytes());
+            out.extend_from_slice(&(num(&op[5]) as u16).to_le_bytes());
+        }
+        x => panic!("bad qualifier {}", x),
+    }
+    out
+}
 
 pub(crate) async fn run_db(script: &Script, obs: &mut Vec<String>) {
-    let _ = script;
-    obs.push("unimplemented".to_string());
+    let cfg = EventBufferConfig::new(
+        script.cfg_u64("mb", 0) as u16,
+        script.cfg_u64("mdb", 0) as u16,
+        script.cfg_u64("mbos", 0) as u16,
+        script.cfg_u64("mc", 0) as u16,
+        script.cfg_u64("mfc", 0) as u16,
+        script.cfg_u64("ma", 0) as u16,
+        script.cfg_u64("maos", 0) as u16,
+        script.cfg_u64("mo", 0) as u16,
+    );
+    let c0s = script.cfg_str("c0", "11111110");
+    let c0: Vec<bool> = c0s.bytes().map(|c| c == b'1').collect();
+    assert!(c0.len() == 8, "c0 needs 8 digits");
+    let c0 = ClassZeroConfig::new(c0[0], c0[1], c0[2], c0[3], c0[4], c0[5], c0[6], c0[7]);
+    let maxsel = script.cfg.get("maxsel").map(|x| x.parse::<u16>().unwrap());
+    let mut db = Database::new(maxsel, c0, cfg);
+    let mut app = App { cleared: Vec::new() };
+
+    for op in &script.ops {
+        match op[0].as_str() {
+            "add" => {
+                let idx = num(&op[2]) as u16;
+                let cl = class(&op[3]);
+                let ok = match op[1].as_str() {
+                    "bi" => db.add(idx, cl, BinaryInputConfig { s_var: s_bi(&op[4]), e_var: e_bi(&op[5]) }),
+                    "dbi" => db.add(idx, cl, DoubleBitBinaryInputConfig { s_var: s_dbi(&op[4]), e_var: e_dbi(&op[5]) }),
+                    "bos" => db.add(idx, cl, BinaryOutputStatusConfig { s_var: s_bos(&op[4]), e_var: e_bos(&op[5]) }),
+                    "ctr" => db.add(idx, cl, CounterConfig { s_var: s_ctr(&op[4]), e_var: e_ctr(&op[5]), deadband: num(&op[6]) as u32 }),
+                    "fctr" => db.add(idx, cl, FrozenCounterConfig { s_var: s_fctr(&op[4]), e_var: e_fctr(&op[5]), deadband: num(&op[6]) as u32 }),
+                    "ai" => db.add(idx, cl, AnalogInputConfig { s_var: s_ai(&op[4]), e_var: e_ai(&op[5]), deadband: f64_of(&op[6]) }),
+                    "aos" => db.add(idx, cl, AnalogOutputStatusConfig { s_var: s_aos(&op[4]), e_var: e_aos(&op[5]), deadband: f64_of(&op[6]) }),
+                    "oct" => db.add(idx, cl, OctetStringConfig),
+                    x => panic!("bad type {}", x),
+                };
+                obs.push(format!("add {}", b01(ok)));
+            }
+            "rm" => {
+                let idx = num(&op[2]) as u16;
+                let ok = match op[1].as_str() {
+                    "bi" => Remove::<BinaryInput>::remove(&mut db, idx),
+                    "dbi" => Remove::<DoubleBitBinaryInput>::remove(&mut db, idx),
+                    "bos" => Remove::<BinaryOutputStatus>::remove(&mut db, idx),
+                    "ctr" => Remove::<Counter>::remove(&mut db, idx),
+                    "fctr" => Remove::<FrozenCounter>::remove(&mut db, idx),
+                    "ai" => Remove::<AnalogInput>::remove(&mut db, idx),
+                    "aos" => Remove::<AnalogOutputStatus>::remove(&mut db, idx),
+                    "oct" => Remove::<OctetString>::remove(&mut db, idx),
+                    x => panic!("bad type {}", x),
+                };
+                obs.push(format!("rm {}", b01(ok)));
+            }
+            "upd" => {
+                let idx = num(&op[2]) as u16;
+                let flags = Flags::new(num(&op[4]) as u8);
+                let t = time(&op[5]);
+                let opts = mode(&op[6]);
+                let v = op[3].as_str();
+                let info = match op[1].as_str() {
+                    "bi" => db.update2(idx, &BinaryInput { value: v == "1", flags, time: t }, opts),
+                    "dbi" => db.update2(idx, &DoubleBitBinaryInput { value: dbit(v), flags, time: t }, opts),
+                    "bos" => db.update2(idx, &BinaryOutputStatus { value: v == "1", flags, time: t }, opts),
+                    "ctr" => db.update2(idx, &Counter { value: num(v) as u32, flags, time: t }, opts),
+                    "fctr" => db.update2(idx, &FrozenCounter { value: num(v) as u32, flags, time: t }, opts),
+                    "ai" => db.update2(idx, &AnalogInput { value: f64_of(v), flags, time: t }, opts),
+                    "aos" => db.update2(idx, &AnalogOutputStatus { value: f64_of(v), flags, time: t }, opts),
+                    "oct" => db.update2(idx, &OctetString::new(&unhex(v)).expect("octet string"), opts),
+                    x => panic!("bad type {}", x),
+                };
+                obs.push(info_text("upd", info));
+            }
+            "updf" => {
+                let idx = num(&op[2]) as u16;
+                let flags = Flags::new(num(&op[3]) as u8);
+                let t = time(&op[4]);
+                let opts = mode(&op[5]);
+                let ty = match op[1].as_str() {
+                    "bi" => UpdateFlagsType::BinaryInput,
+                    "dbi" => UpdateFlagsType::DoubleBitBinaryInput,
+                    "bos" => UpdateFlagsType::BinaryOutputStatus,
+                    "ctr" => UpdateFlagsType::Counter,
+                    "fctr" => UpdateFlagsType::FrozenCounter,
+                    "ai" => UpdateFlagsType::AnalogInput,
+                    "aos" => UpdateFlagsType::AnalogOutputStatus,
+                    x => panic!("bad type {}", x),
+                };
+                let info = db.update_flags(idx, ty, flags, t, opts);
+                obs.push(info_text("updf", info));
+            }
+            "get" => {
+                let idx = num(&op[2]) as u16;
+                let line = match op[1].as_str() {
+                    "bi" => Get::<BinaryInput>::get(&db, idx).map(|x| format!("{} {} {}", b01(x.value), x.flags.value, time_text(x.time))),
+                    "dbi" => Get::<DoubleBitBinaryInput>::get(&db, idx).map(|x| format!("{} {} {}", x.value.to_byte(), x.flags.value, time_text(x.time))),
+                    "bos" => Get::<BinaryOutputStatus>::get(&db, idx).map(|x| format!("{} {} {}", b01(x.value), x.flags.value, time_text(x.time))),
+                    "ctr" => Get::<Counter>::get(&db, idx).map(|x| format!("{} {} {}", x.value, x.flags.value, time_text(x.time))),
+                    "fctr" => Get::<FrozenCounter>::get(&db, idx).map(|x| format!("{} {} {}", x.value, x.flags.value, time_text(x.time))),
+                    "ai" => Get::<AnalogInput>::get(&db, idx).map(|x| format!("{:016x} {} {}", x.value.to_bits(), x.flags.value, time_text(x.time))),
+                    "aos" => Get::<AnalogOutputStatus>::get(&db, idx).map(|x| format!("{:016x} {} {}", x.value.to_bits(), x.flags.value, time_text(x.time))),
+                    "oct" => Get::<OctetString>::get(&db, idx).map(|x| format!("{} 0 n", hex(x.value()))),
+                    x => panic!("bad type {}", x),
+                };
+                obs.push(match line {
+                    None => "get none".to_string(),
+                    Some(x) => format!("get {}", x),
+                });
+            }
+            "sel" => {
+                let bytes = request_header(op);
+                match HeaderCollection::parse(ParseOptions::default(), FunctionCode::Read, &bytes) {
+                    Err(_) => obs.push("sel badreq".to_string()),
+                    Ok(headers) => {
+                        for header in headers.iter() {
+                            match ReadHeader::get(&header) {
+                                None => obs.push("sel unsupported".to_string()),
+                                Some(x) => {
+                                    let iin2 = db.inner.select_by_header(x);
+                                    obs.push(format!("sel {}", iin2.value));
+                                }
+                            }
+                        }
+                    }
+                }
+            }
+            "selm" => {
+                let m = op[1].as_bytes();
+                let classes = EventClasses::new(m[0] == b'1', m[1] == b'1', m[2] == b'1');
+                let n = db.inner.select_event_classes(classes);
+                obs.push(format!("selm {}", n));
+            }
+            "wr" => {
+                let mut buf = vec![0u8; num(&op[1]) as usize];
+                let mut cursor = WriteCursor::new(&mut buf);
+                let info = db.inner.write_response_headers(&mut cursor);
+                obs.push(format!("wr {} {} {}", hex(cursor.written()), b01(info.has_events), b01(info.complete)));
+            }
+            "wre" => {
+                let mut buf = vec![0u8; num(&op[1]) as usize];
+                let mut cursor = WriteCursor::new(&mut buf);
+                let n = db.inner.write_events_only(&mut cursor);
+                obs.push(format!("wre {} {}", hex(cursor.written()), n));
+            }
+            "clr" => {
+                app.cleared.clear();
+                let st = db.inner.clear_written_events(&mut app);
+                let ids = if app.cleared.is_empty() {
+                    "-".to_string()
+                } else {
+                    app.cleared.iter().map(|x| x.to_string()).collect::<Vec<_>>().join(" ")
+                };
+                obs.push(format!(
+                    "clr {} | {} {} {} | {} {} {} {} {} {} {} {}",
+                    ids,
+                    st.classes.num_class_1,
+                    st.classes.num_class_2,
+                    st.classes.num_class_3,
+                    st.types.num_binary_input,
+                    st.types.num_double_bit_binary_input,
+                    st.types.num_binary_output_status,
+                    st.types.num_counter,
+                    st.types.num_frozen_counter,
+                    st.types.num_analog,
+                    st.types.num_analog_output_status,
+                    st.types.num_octet_string
+                ));
+            }
+            "rst" => {
+                db.inner.reset();
+                obs.push("rst".to_string());
+            }
+            "iin" => {
+                let c = db.inner.unwritten_classes();
+                let o = db.inner.is_overflown();
+                obs.push(format!("iin {}{}{} {}", b01(c.class1), b01(c.class2), b01(c.class3), b01(o)));
+            }
+            x => panic!("bad op {}", x),
+        }
+    }
+    obs.push("end".to_string());
 }
